@@ -103,7 +103,7 @@ def count_hooks(t):
     return sum(1 for n in gf.walk(t) if is_hook(n))
 
 
-inner_text = st.one_of(trees(False, 5).map(gf.render), st.sampled_from(['1+', 'SUM(1,', '1/0', 'nosuch', '#N/A', 'SQRT(-1)+1', 'LEFT(1,2,3,4)', 'v_s+1', '10-3-2', 'SUM(1,2,3)*4+B2', '"a"&"b"&v_s', '{1,2;3,4}', 'IF(1<2,v_a,0)']))
+inner_text = st.one_of(trees(False, 5).map(gf.render), st.sampled_from(['', '', ' ', '1+', 'SUM(1,', '1/0', 'nosuch', '#N/A', 'SQRT(-1)+1', 'LEFT(1,2,3,4)', 'v_s+1', '10-3-2', 'SUM(1,2,3)*4+B2', '"a"&"b"&v_s', '{1,2;3,4}', 'IF(1<2,v_a,0)']))
 
 
 @st.composite
